@@ -16,6 +16,7 @@ import Rml.Props.C15
 import Rml.Props.C14
 import Rml.Props.C17
 import Rml.Lemmas.HsSpec
+import Rml.Lemmas.SessSafe
 namespace Rml.C03
 open Rml Rml.Chunk
 
@@ -197,5 +198,29 @@ theorem C03_ack_counter_no_overflow (w : Option Nat) (since n : Nat) (hs : since
     unfold Sess.ackStep
     simp only
     split <;> simp only <;> omega
+
+/-- **sessions never loop without consuming input.**  In EVERY state a server session reaches (any
+    configuration, any history of inputs and calls with 32-bit arguments; K2 histories excluded as in
+    C18), for EVERY byte string: `handle_input` returns results or a genuine error — never the model's
+    `hang` outcome (a serializer loop that would not return) and never "message loop out of fuel" (the
+    loop's fuel, bytes + buffered + 2, always suffices: every message but the one under way takes at
+    least its basic-header byte). -/
+theorem C03_server_input_returns (c : Srv.Config) (now : Nat) (s0 : Srv.State) (rs0 : List Srv.Res)
+    (ops : List SrvEmit.Op) (hnew : Srv.new c now = .ok (s0, rs0)) (hw : ∀ op ∈ ops, op.WF)
+    (hk : SrvEmit.ErrKeepsSer s0 ops) (now' : Nat) (bytes : Bytes) :
+    (Srv.handleInput (SrvEmit.run s0 ops).1 now' bytes).2 ≠ .error .hang ∧
+    (Srv.handleInput (SrvEmit.run s0 ops).1 now' bytes).2 ≠ .error (.chunkDes .fuel) := by
+  obtain ⟨hi, hp⟩ := Safe.S.reach c now s0 rs0 ops hnew hw hk
+  obtain ⟨h1, h2⟩ := Safe.S.handleInput_safe _ now' bytes hi hp
+  exact ⟨fun hh => (h1 _ hh).1 rfl, h2⟩
+
+/-- the same for a client session -/
+theorem C03_client_input_returns (cfg : Cli.Config) (ops : List CliEmit.Op) (hw : ∀ op ∈ ops, op.WF)
+    (hk : CliEmit.ErrKeepsSer { cfg := cfg } ops) (now' : Nat) (bytes : Bytes) :
+    (Cli.handleInput (CliEmit.run { cfg := cfg } ops).1 now' bytes).2 ≠ .error .hang ∧
+    (Cli.handleInput (CliEmit.run { cfg := cfg } ops).1 now' bytes).2 ≠ .error (.chunkDes .fuel) := by
+  obtain ⟨hi, hp⟩ := Safe.C.reach cfg ops hw hk
+  obtain ⟨h1, h2⟩ := Safe.C.handleInput_safe _ now' bytes hi hp
+  exact ⟨fun hh => (h1 _ hh).1 rfl, h2⟩
 
 end Rml.C03
